@@ -65,7 +65,7 @@ def run(ctx):
         g = cfg_of(en.node)
         adds = shared.config_op_nodes(ctx, v, en, {"call:add"})
         eacts = _actions_calls(en, "entry")
-        c.floor("R3", f"entry-action sites in {en.short}", len(eacts), 1)
+        c.expect("R3", f"entry-action sites in {en.short}", len(eacts), 1, en, f"{en.short} no longer executes the entry actions of the states it enters")
         for call in eacts:
             loops = [l for l in enclosing_loops(en, call) if isinstance(l, ast.For)]
             hdr = g.nodes_of(loops[0])[0] if loops else None
@@ -77,7 +77,9 @@ def run(ctx):
         cancels = [n for call in self_calls_in(xt, "_cancel_state_tasks") for n in cfg_node_of(xt, call)]
         discards = shared.config_op_nodes(ctx, v, xt, {"call:discard", "call:remove"})
         xacts = _actions_calls(xt, "exit")
-        c.floor("R3", f"exit-action sites in {xt.short}", min(len(xacts), len(cancels), len(discards)), 1)
+        c.expect("R3", f"exit-action sites in {xt.short}", len(xacts), 1, xt, f"{xt.short} no longer executes the exit actions of the states it leaves")
+        c.expect("R3", f"task cancellation in {xt.short}", len(cancels), 1, xt, f"{xt.short} no longer cancels the timers and services of the states it leaves: they fire after the state was left")
+        c.expect("R3", f"removal from the configuration in {xt.short}", len(discards), 1, xt, f"{xt.short} no longer removes the exited states from the configuration")
         for call in xacts:
             ids = cfg_node_of(xt, call)
             # the cancel must cover the same states: iterate the same collection
@@ -179,7 +181,7 @@ def run(ctx):
         tests = [n for n in g.nodes if n.kind == "test" and
                  any(isinstance(x, ast.Attribute) and x.attr in ("target_str", "reenter") for x in ast.walk(n.ast))]
         tests = [t for t in tests if not enclosing_loops(d, t.ast) and in_handler(d, t.ast) is None]
-        c.floor("R6", f"targetless/internal tests in {d.short}", len(tests), 2)
+        c.expect("R6", f"targetless/internal tests in {d.short}", len(tests), 2, d, f"{d.short} no longer separates targetless and internal self-transitions from external ones: they exit and re-enter their source (entry/exit actions run, timers restart)")
         for t in tests[:2]:
             region = g.reachable([dd for dd, lab in g.succ[t.id] if lab == "T"], follow_exc=False)
             bad = region & heavy
